@@ -87,6 +87,13 @@ func init() {
 
 type mcBackend struct {
 	h *verifmc.Handle
+	// deadlineErrs: injected failures look like a timed-out request (they wrap
+	// context.DeadlineExceeded) instead of a generic storage error.
+	deadlineErrs bool
+	// stallDiscard: Discard blocks until its context ends (a hung request), or
+	// until release is closed at teardown.
+	stallDiscard bool
+	release      chan struct{}
 	// optsSeen records the upload options per key (C04/C19 metadata checks).
 	mu       sync.Mutex
 	optsSeen map[string]UploadOptions
@@ -105,26 +112,46 @@ func (b *mcBackend) Upload(ctx context.Context, key string, data []byte, opts *U
 		b.optsSeen[key] = *opts
 		b.mu.Unlock()
 	}
-	return b.h.Upload(key, data, imm)
+	return flavour(b.deadlineErrs, b.h.Upload(key, data, imm))
+}
+
+// flavour turns an injected failure into a timeout-looking one.
+func flavour(deadline bool, err error) error {
+	if deadline && errors.Is(err, verifmc.ErrInjected) {
+		return fmt.Errorf("%w: %w", err, context.DeadlineExceeded)
+	}
+	return err
 }
 
 func (b *mcBackend) Fetch(ctx context.Context, key string) ([]byte, error) {
 	if err := ctx.Err(); err != nil {
 		return nil, err
 	}
-	return b.h.Fetch(key)
+	v, err := b.h.Fetch(key)
+	return v, flavour(b.deadlineErrs, err)
 }
 
 func (b *mcBackend) Discard(ctx context.Context, key string) error {
 	if err := ctx.Err(); err != nil {
 		return err
 	}
-	return b.h.Discard(key)
+	if b.stallDiscard {
+		select {
+		case <-ctx.Done():
+			return fmt.Errorf("verifmc: request hung until its context ended: %w", ctx.Err())
+		case <-b.release:
+			return verifmc.ErrInjected
+		}
+	}
+	return flavour(b.deadlineErrs, b.h.Discard(key))
 }
 
 func (b *mcBackend) Metrics() []prometheus.Collector { return nil }
 
-type mcLock struct{ h *verifmc.Handle }
+type mcLock struct {
+	h            *verifmc.Handle
+	deadlineErrs bool
+}
 
 type mcLocked struct {
 	key  string
@@ -154,7 +181,7 @@ func (l *mcLock) Replace(ctx context.Context, old LockedCheckpoint, new []byte) 
 	}
 	o := old.(*mcLocked)
 	if err := l.h.Replace(o.key, o.body, new); err != nil {
-		return nil, err
+		return nil, flavour(l.deadlineErrs, err)
 	}
 	return &mcLocked{key: o.key, body: bytes.Clone(new)}, nil
 }
@@ -303,6 +330,8 @@ type options struct {
 	crashes bool
 	clock   bool // clock anomalies
 	local   bool // local-like storage personality
+	// deadlineErrs: injected failures wrap context.DeadlineExceeded.
+	deadlineErrs bool
 }
 
 type world struct {
@@ -426,7 +455,7 @@ func (w *world) newInstance(name string, epoch int, rows []cacheRow, quiet bool)
 	in.lh = w.lock.Handle(fmt.Sprintf("%s.e%d", name, epoch))
 	in.bh.Quiet, in.lh.Quiet = quiet, quiet
 	in.bh.NoFaults, in.lh.NoFaults = !w.opt.faults, !w.opt.faults
-	in.be = &mcBackend{h: in.bh}
+	in.be = &mcBackend{h: in.bh, deadlineErrs: w.opt.deadlineErrs}
 	in.cache = fmt.Sprintf("file:mc%d_%s_%d?mode=memory&cache=shared", w.execID, name, epoch)
 	keeper, err := sqlite.OpenConn(in.cache, 0)
 	if err != nil {
@@ -447,7 +476,7 @@ func (w *world) newInstance(name string, epoch int, rows []cacheRow, quiet bool)
 	in.ctx, in.cancel = context.WithCancel(context.Background())
 	in.cfg = &Config{
 		Name: logName, Key: mcKey, WitnessKey: mcWitKey, PoolSize: w.poolSize, Cache: in.cache,
-		Backend: in.be, Lock: &mcLock{h: in.lh}, Log: slog.New(slog.DiscardHandler),
+		Backend: in.be, Lock: &mcLock{h: in.lh, deadlineErrs: w.opt.deadlineErrs}, Log: slog.New(slog.DiscardHandler),
 		NotAfterStart: time.Date(1990, 1, 1, 0, 0, 0, 0, time.UTC),
 		NotAfterLimit: time.Date(2099, 1, 1, 0, 0, 0, 0, time.UTC),
 	}
